@@ -13,6 +13,9 @@ structure Tcb where
   peer : SockAddr
   sndNxt : Nat
   sndUna : Nat
+  /-- `snd_max` (SND.MAX): highest `snd_nxt` ever reached. Maintained in every variant; only read
+      when `fixSndMax` is set (before the repair the Rust struct has no such field). -/
+  sndMax : Nat
   sndWnd : Nat
   rcvNxt : Nat
   sendBuf : List Nat := []
@@ -30,7 +33,8 @@ namespace Tcb
 
 /-- Fresh TCB as built by `poll_connect` (SynSent) and `accept_syn` (SynReceived). -/
 def fresh (st : TcpState) (peer : SockAddr) (isn sndWnd rcvNxt : Nat) : Tcb :=
-  { state := st, peer := peer, sndNxt := wadd isn 1, sndUna := wadd isn 1, sndWnd := sndWnd, rcvNxt := rcvNxt }
+  { state := st, peer := peer, sndNxt := wadd isn 1, sndUna := wadd isn 1, sndMax := wadd isn 1, sndWnd := sndWnd,
+    rcvNxt := rcvNxt }
 
 /-- `abort_error` (tcp.rs:745). -/
 def abortErr (t : Tcb) : Option Err :=
@@ -64,9 +68,14 @@ def stateOnShutdown : TcpState → TcpState
   | .closeWait => .lastAck
   | o => o
 
+/-- The bound of ACK validation: `snd_nxt − snd_una` in the code as found, `snd_max − snd_una` with
+    the SND.MAX repair. -/
+def ackBound (t : Tcb) (fixMax : Bool) : Nat :=
+  if fixMax then wsub t.sndMax t.sndUna else t.inFlight
+
 /-- Is `ack` a cumulative ACK of something in flight (`acked > 0 && acked <= in_flight`, tcp.rs:303)? -/
-def ackValid (t : Tcb) (ack : Nat) : Bool :=
-  decide (0 < wsub ack t.sndUna) && decide (wsub ack t.sndUna ≤ t.inFlight)
+def ackValid (t : Tcb) (fixMax : Bool) (ack : Nat) : Bool :=
+  decide (0 < wsub ack t.sndUna) && decide (wsub ack t.sndUna ≤ t.ackBound fixMax)
 
 /-- Freeing the acknowledged bytes (tcp.rs:304-328). -/
 def ackAdvance (t : Tcb) (ack : Nat) : Tcb :=
@@ -75,14 +84,16 @@ def ackAdvance (t : Tcb) (ack : Nat) : Tcb :=
   { t with
     sendBuf := t.sendBuf.drop (if fa then acked - 1 else acked)
     sndUna := ack
+    -- an ACK beyond the (rewound) `snd_nxt` pulls it up; cannot happen without `fixSndMax`
+    sndNxt := if acked > t.inFlight then ack else t.sndNxt
     egressSinceAck := 0
     retxAttempts := 0
     state := if fa then stateOnFinAck t.state else t.state }
 
 /-- ACK processing of `handle_established` (tcp.rs:297-332). -/
-def onAck (t : Tcb) (s : Seg) : Tcb :=
+def onAck (t : Tcb) (fixMax : Bool) (s : Seg) : Tcb :=
   if s.flags.ack then
-    { (if t.ackValid s.ack then t.ackAdvance s.ack else t) with sndWnd := s.window }
+    { (if t.ackValid fixMax s.ack then t.ackAdvance s.ack else t) with sndWnd := s.window }
   else t
 
 /-- Number of payload bytes `handle_established` accepts (tcp.rs:337-346). -/
@@ -106,7 +117,7 @@ def onFin (t : Tcb) (s : Seg) : Tcb × Bool :=
 
 /-- `handle_established` on the TCB: ACK, data, FIN. Second component: emit an ACK afterwards. -/
 def handleEstablished (cfg : Cfg) (t : Tcb) (s : Seg) : Tcb × Bool :=
-  let t1 := t.onAck s
+  let t1 := t.onAck cfg.fixSndMax s
   let (t2, a1) := t1.onData cfg.recvCap s
   let (t3, a2) := t2.onFin s
   let occupies := s.payload ≠ [] || s.flags.fin || s.flags.syn
@@ -132,6 +143,11 @@ def finPending (t : Tcb) : Bool :=
 def segCandidate (t : Tcb) : Bool :=
   t.transmittable && (decide (t.sendBuf.length > t.inFlight) || t.finPending)
 
+/-- `advance_snd_max`: `snd_max` follows `snd_nxt` when it moves past it (compared relative to
+    `snd_una`, wrap-safe). -/
+def advMax (t : Tcb) (nxt : Nat) : Nat :=
+  if wsub nxt t.sndUna > wsub t.sndMax t.sndUna then nxt else t.sndMax
+
 /-- One iteration of the loop in `segment_one` (tcp.rs:1257-1307): `none` = return. -/
 def segStep (mss recvCap : Nat) (t : Tcb) (srcPort : Nat) : Option (Tcb × Seg) :=
   let inFl := t.inFlight
@@ -140,12 +156,12 @@ def segStep (mss recvCap : Nat) (t : Tcb) (srcPort : Nat) : Option (Tcb × Seg) 
   if 0 < unsent ∧ 0 < wndRem then
     let n := min (min unsent mss) wndRem
     let payload := (t.sendBuf.drop inFl).take n
-    let t' := { t with sndNxt := wadd t.sndNxt n }
+    let t' := { t with sndNxt := wadd t.sndNxt n, sndMax := t.advMax (wadd t.sndNxt n) }
     some (t', { srcPort := srcPort, dstPort := t.peer.port, seq := t.sndNxt, ack := t.rcvNxt,
                 flags := { ack := true, psh := !payload.isEmpty },
                 window := advWindow recvCap t.recvBuf.length, payload := payload })
   else if t.finPending ∧ 0 < wndRem then
-    let t' := { t with sndNxt := wadd t.sndNxt 1 }
+    let t' := { t with sndNxt := wadd t.sndNxt 1, sndMax := t.advMax (wadd t.sndNxt 1) }
     some (t', { srcPort := srcPort, dstPort := t.peer.port, seq := t.sndNxt, ack := t.rcvNxt,
                 flags := { ack := true, fin := true },
                 window := advWindow recvCap t.recvBuf.length, payload := [] })
